@@ -16,7 +16,7 @@ PUMPS = [{'power': 0.224403, 'frequency': 205e12, 'propagation_direction': 'coun
 CHAINS = [
     'F80', 'F0.05', 'F10', 'F120', 'F200', 'F460', 'F1500', 'F80_F60', 'F40_U_F30', 'U_F60', 'F60_U', 'F30_U_U_F20',
     'E_F80', 'F80_E', 'F80_E_F70', 'Efull_F100_Efull', 'Etype_F100_Egain', 'Evoa_F90_Edp', 'F100lumped', 'F200lumped',
-    'F200lumped_unsorted', 'F460lumped3', 'F200att', 'F20att', 'F80perfreq', 'R80_E', 'F80_R80', 'R30_U_F10', 'F100_F100_F100', 'Evoa_F100', 'Evoa_F70_F70', 'F80_Evoa', 'F80conin', 'F80conout',
+    'F200lumped_unsorted', 'F460lumped3', 'F200att', 'F20att', 'F80perfreq', 'R80_E', 'F80_R80', 'R30_U_F10', 'R200', 'F100_F100_F100', 'Evoa_F100', 'Evoa_F70_F70', 'F80_Evoa', 'F80conin', 'F80conout',
 ]
 
 
@@ -57,6 +57,8 @@ def chain(kind, amp_low='std_low_gain', amp_med='std_medium_gain'):
         'F80_R80': [f(80), raman_fiber(80)],
         # a short Raman fibre spliced to a plain fibre: the span's net loss (loss - Raman gain) is below the padding
         'R30_U_F10': [raman_fiber(30), u(0.5), f(10)],
+        # a Raman fibre longer than the maximum span length
+        'R200': [raman_fiber(200)],
         'F100_F100_F100': [f(100), f(100, loss=0.21), f(100, loss=0.19)],
         # operator VOA at the output of an otherwise automatic booster, followed only by automatic amplifiers
         'Evoa_F100': [e(None, out_voa=2.0), f(100)],
